@@ -531,10 +531,10 @@ PLANS["C06"] = job_plan("C06", ["Wx.Job.C06", "Wx.Job.C10b", "Wx.Job.C06w"],
     ["Jm.c06_no_early_kill", "Jm.c06_timer_not_short", "Jm.graceInv_simInv", "Jm.ext_handle", "Jm.handle_timer", "Jm.kill_in_spec", "Jm.graceful_stop_step", "Jm.graceful_restart_step", "Jm.signalChild_log", "Jm.timer_fires", "Jm.timer_not_early", "Jm.held_back", "Jm.killReap_log", "Jm.expiry_kills",
      "Jm.continue_clears", "Jm.no_extra_respawn_fixed", "Jm.extra_respawn_today", "Jm.c10_priority"],
     "Oracle: in scripts without forceful controls no kill happens before some graceful control's grace period has elapsed.")
-PLANS["C07"] = job_plan("C07", ["Wx.Job.C07b", "Wx.Job.C07w", "Wx.Job.C10c"],
-    ["Jm.c07_noLost", "Jm.c07_noLost_fails_today", "Jm.c07_tickets", "Jm.c07_tickets_fails_today", "Jm.c10_ran", "Jm.timer_fires", "Jm.expiry_kills"],
+PLANS["C07"] = job_plan("C07", ["Wx.Job.C07b", "Wx.Job.C07w", "Wx.Job.C10c", "Wx.Job.C07t"],
+    ["Jm.c07_ticket_by_deadline", "Jm.c07_timer_fresh", "Jm.timerFresh_simInv", "Jm.c07_noLost", "Jm.c07_noLost_fails_today", "Jm.c07_tickets", "Jm.c07_tickets_fails_today", "Jm.c10_ran", "Jm.timer_fires", "Jm.expiry_kills"],
     "Oracle: the task never panics; after the job has ended no ticket stays unresolved; no run marker executes twice.",
-    partial="the liveness step 'a held flag is eventually raised' is the conjunction of timer_fires / expiry_kills (eager scheduler) and the wait branch; a wait-for-end ticket on a child that never ends legitimately never resolves")
+    partial="bounded liveness is a theorem for grace timers (c07_ticket_by_deadline: a flag held by a timer has an unexpired deadline, virtual clock of the eager scheduler); a wait-for-end ticket on a child that never ends legitimately never resolves; real-time promptness is observed by the stream only")
 PLANS["C09"] = job_plan("C09", ["Wx.Job.C09", "Wx.Job.C09b", "Wx.Job.C09c"], ["Jm.handle_refines", "Jm.waitBranch_refines", "Jm.spawn_refines", "Jm.spawnB_refines", "Jm.continue_idle", "Jm.runInv_turns", "Jm.runInv_simInv", "Jm.c09_whole_run"],
     "The run markers record (current, previous) state, so the observable state is compared step by step with the model, which refines the documented machine (specStep).")
 PLANS["C10"] = job_plan("C10", ["Wx.Job.C10b", "Wx.Job.C10c"], ["Jm.c10_fifo", "Jm.c10_priority", "Jm.c10_priority_fails_today", "Jm.c10_ran"],
